@@ -1,6 +1,7 @@
 """Statement executor, loop cutting, function-level VC generation."""
 import ast
 import itertools
+import os
 import z3
 
 from . import types as T
@@ -656,6 +657,12 @@ class Executor:
                                     mutated.add(r)
                             except Exception:
                                 pass
+        gvars = set((ctx.contract.ghost.get('vars') or {}).keys())
+        if gvars:
+            for n in ast.walk(ast.Module(body=body, type_ignores=[])):
+                if isinstance(n, ast.Call) and isinstance(n.func, ast.Attribute) and \
+                        n.func.attr in ('start',) + tuple(ctx.contract.ghost.get('mutators', ())):
+                    mutated |= gvars
         s = state
         # cells reachable from mutated names
         for n in sorted(mutated):
@@ -863,7 +870,14 @@ class Executor:
             fn = it.func.id
             if fn == 'range':
                 args = [ev.eval(state, a) for a in it.args]
-                return RangeIter(args, node, ord_)
+                rit = RangeIter(args, node, ord_)
+                if rit.sign is None:
+                    # symbolic step: only positive steps are modelled; positivity is an
+                    # obligation (stricter than Python, which also accepts negative steps)
+                    self.ctx.oblige(state, rit.step > 0, 'ValueError', node,
+                                    'range step is positive (symbolic step)')
+                    rit.sign = 1
+                return rit
             if fn == 'enumerate':
                 inner = self.seq_source(it.args[0], state)
                 return SeqIter([inner[0]], node, ord_, enum=True, roots=inner[1])
@@ -1209,17 +1223,41 @@ class OpaqueIter:
 # merging at joins
 # ---------------------------------------------------------------------------------------------
 def merge_states(states, base_len):
+    r = _merge_states(states, base_len)
+    if r is None and os.environ.get('VERIF_DEBUG_MERGE'):
+        print('merge failed', [sorted(set(s.env)) == sorted(set(states[0].env)) for s in states], _MERGE_WHY[-1:])
+    return r
+
+
+_MERGE_WHY = []
+
+
+def _merge_states(states, base_len):
     """ite-merge of states that share the path-condition prefix pc[:base_len]; None if the
     states bind names to values of incompatible types"""
     first = states[0]
     prefix = first.pc[:base_len]
     for s in states:
         if len(s.pc) < base_len or any(a is not b for a, b in zip(s.pc[:base_len], prefix)):
+            _MERGE_WHY.append(1)
             return None
     names = set(first.env)
     for s in states[1:]:
-        if set(s.env) != names:
-            return None
+        names |= set(s.env)
+    # a name bound on some branches only: unassigned (arbitrary value) on the others
+    patched = []
+    for s in states:
+        missing = names - set(s.env)
+        if missing:
+            s = s.copy()
+            for n in missing:
+                donor = next(x for x in states if n in x.env)
+                dv = read_ref(donor, donor.env[n])
+                s.env[n] = s.new_cell(fresh(dv.ty, 'unasg_' + n))
+                s.asg[n] = z3.BoolVal(False)
+        patched.append(s)
+    states = patched
+    first = states[0]
     conds = [z3.And(*s.pc[base_len:]) if len(s.pc) > base_len else z3.BoolVal(True) for s in states]
     full = conds
     # the first branch-specific assumption (the branch condition) selects the state when it
@@ -1250,12 +1288,14 @@ def merge_states(states, base_len):
         for v in present[1:]:
             ty = join_types(ty, v.ty)
             if ty is None:
+                _MERGE_WHY.append(3)
                 return None
         try:
             term = coerce(vals[-1], ty).term
             for c, v in zip(reversed(conds[:-1]), reversed(vals[:-1])):
                 term = z3.If(c, coerce(v, ty).term, term)
         except Unsupported:
+            _MERGE_WHY.append(4)
             return None
         out.cells[cid] = SymVal(ty, term)
     for n in names:
@@ -1266,19 +1306,23 @@ def merge_states(states, base_len):
             try:
                 vals = [read_ref(s, s.env[n]) for s in states]
             except Exception:
+                _MERGE_WHY.append(5)
                 return None
             ty = vals[0].ty
             for v in vals[1:]:
                 ty = join_types(ty, v.ty)
                 if ty is None:
+                    _MERGE_WHY.append(6)
                     return None
             if T.is_mutable(ty) and any(r.path for r in refs):
+                _MERGE_WHY.append(7)
                 return None    # aliases into different containers: keep the paths apart
             try:
                 term = coerce(vals[-1], ty).term
                 for c, v in zip(reversed(conds[:-1]), reversed(vals[:-1])):
                     term = z3.If(c, coerce(v, ty).term, term)
             except Unsupported:
+                _MERGE_WHY.append(8)
                 return None
             meta = vals[0].meta if all(v.meta == vals[0].meta for v in vals) else None
             out.env[n] = out.new_cell(SymVal(ty, term, meta))
